@@ -67,6 +67,7 @@ def lift(repo):
     snaps = {}           # snapshot list name -> player
     events = []
     srcs = []
+    extra = {}
     returned = False
     for st in body:
         if returned:
@@ -97,6 +98,21 @@ def lift(repo):
             if _src(st.test) == "self.base.pass_y_" and not st.orelse and len(st.body) == 1 and isinstance(st.body[0], ast.Assign) \
                     and isinstance(st.body[0].targets[0], ast.Name) and _src(st.body[0].value.func) in ("torch.cat", "torch.concat"):
                 a = st.body[0]
+                cat = a.value
+                kw = {k.arg: _src(k.value) for k in cat.keywords}
+                ok = (len(cat.args) == 1 and isinstance(cat.args[0], (ast.Tuple, ast.List)) and len(cat.args[0].elts) == 2
+                      and kw in ({"dim": "1"}, {"dim": "-1"}, {"axis": "1"}))
+                if not ok or "cat" in extra:
+                    _bad(f"equalized-odds concatenation of unknown shape: {_src(a)[:80]}")
+                parts = []
+                for e in cat.args[0].elts:
+                    if isinstance(e, ast.Name) and e.id == a.targets[0].id and "predictor" in deps.get(e.id, set()):
+                        parts.append("yhat")
+                    elif _src(e) == "Y":
+                        parts.append("y")
+                    else:
+                        _bad(f"equalized-odds concatenation joins `{_src(e)}`")
+                extra["cat"] = (parts, a.targets[0].id, _src(a))
                 deps[a.targets[0].id] = deps.get(a.targets[0].id, set()) | _deps_of(a.value, deps)
                 continue
             _bad(f"if-statement of unknown shape: {s[:80]}")
@@ -118,6 +134,8 @@ def lift(repo):
         name, v = st.targets[0].id, st.value
         if isinstance(v, ast.Call) and _src(v.func) in PLAYERS and len(v.args) == 1 and not v.keywords:
             deps[name] = {PLAYERS[_src(v.func)]} | _deps_of(v.args[0], deps)
+            if PLAYERS[_src(v.func)] == "adversary":
+                extra["adv_arg"] = _src(v.args[0])
             continue
         if isinstance(v, ast.Call) and _src(v.func) in ("self.predictor_loss", "self.adversary_loss") and len(v.args) == 2 \
                 and not v.keywords:
@@ -151,6 +169,10 @@ def lift(repo):
         _bad("train_step does not return")
     if set(loss.values()) != {"LP", "LA"}:
         _bad(f"losses found: {sorted(loss.values())}")
+    if "cat" not in extra or extra.get("adv_arg") != extra["cat"][1]:
+        _bad("the adversary is not fed the (optionally concatenated) predictor output")
+    passy = lift_pass_y(repo)
+    width = lift_adv_width(repo)
     dep = {}
     for nm, which in loss.items():
         dep[which] = sorted(deps[nm])
@@ -177,8 +199,75 @@ def lift(repo):
           "def dependsOn : Loss → List Player",
           "  | .LP => [" + ", ".join("." + p for p in sorted(dep["LP"], key=order.get)) + "]",
           "  | .LA => [" + ", ".join("." + p for p in sorted(dep["LA"], key=order.get)) + "]", "",
+          "/-- what the adversary's forward pass is fed, column blocks in order -/",
+          "inductive AdvIn where", "  /-- the predictor's output `Y_hat` (NOT detached: LA reaches the predictor through it) -/", "  | yhat",
+          "  /-- the encoded target `Y` -/", "  | y", "deriving DecidableEq, Repr", "",
+          f"/-- `if self.base.pass_y_: {extra['cat'][2]}`; `A_hat = self.adversary_model({extra['adv_arg']})` -/",
+          "def adversaryInput (pass_y : Bool) : List AdvIn := if pass_y then [" + ", ".join("." + x for x in extra["cat"][0]) + "] else [.yhat]", "",
+          f"/-- fairlearn/adversarial/_adversarial_mitigation.py `__setup`: {passy[1]} -/",
+          "def passY (constraints : String) : Option Bool := " + passy[0], "",
+          f"/-- fairlearn/adversarial/_backend_engine.py: input width of the adversary model `{width[1]}` -/",
+          "def adversaryInputWidth (n_Y_features : Nat) (pass_y : Bool) : Nat := " + width[0], "",
           "end AdvTrainStepSrc", ""]
-    return "AdvTrainStepSrc.lean", "\n".join(o), dict(events=[e.strip(".") for e in events], dependsOn=dep)
+    return "AdvTrainStepSrc.lean", "\n".join(o), dict(events=[e.strip(".") for e in events], dependsOn=dep,
+                                                       adversary_input=extra["cat"][0])
+
+
+def lift_pass_y(repo):
+    """`if self.constraints == 'demographic_parity': self.pass_y_ = False elif ... == 'equalized_odds': self.pass_y_ = True else: raise`"""
+    rel = "fairlearn/adversarial/_adversarial_mitigation.py"
+    with open(os.path.join(repo, rel)) as f:
+        tree = ast.parse(f.read())
+    writes = [n for n in ast.walk(tree) if isinstance(n, ast.Assign) and _src(n.targets[0]) == "self.pass_y_"]
+    chain = [n for n in ast.walk(tree) if isinstance(n, ast.If) and isinstance(n.test, ast.Compare) and _src(n.test.left) == "self.constraints"
+             and any(w in n.body for w in writes)]
+    heads = [n for n in chain if not any(n in m.orelse for m in chain)]
+    if len(heads) != 1 or len(writes) != 2:
+        _bad(f"pass_y_ is not set by one if/elif chain on self.constraints ({len(writes)} assignments)")
+    node, arms = heads[0], []
+    while True:
+        ok = (len(node.test.ops) == 1 and isinstance(node.test.ops[0], ast.Eq) and isinstance(node.test.comparators[0], ast.Constant)
+              and isinstance(node.test.comparators[0].value, str) and len(node.body) == 1 and node.body[0] in writes
+              and isinstance(node.body[0].value, ast.Constant) and isinstance(node.body[0].value.value, bool))
+        if not ok:
+            _bad(f"pass_y_ branch of unknown shape: {_src(node.test)}")
+        arms.append((node.test.comparators[0].value, node.body[0].value.value))
+        if len(node.orelse) == 1 and isinstance(node.orelse[0], ast.If) and node.orelse[0] in chain:
+            node = node.orelse[0]
+            continue
+        if not (len(node.orelse) == 1 and isinstance(node.orelse[0], ast.Raise)):
+            _bad("the pass_y_ chain does not end with a raise")
+        break
+    expr = "".join(f'if constraints == "{k}" then some {"true" if v else "false"} else ' for k, v in arms) + "none"
+    return expr, "; ".join(f"constraints == {k!r}: pass_y_ = {v}" for k, v in arms) + "; else ValueError"
+
+
+def lift_adv_width(repo):
+    rel = "fairlearn/adversarial/_backend_engine.py"
+    with open(os.path.join(repo, rel)) as f:
+        tree = ast.parse(f.read())
+    calls = [n for n in ast.walk(tree) if isinstance(n, ast.Call) and _src(n.func) == "self.__init_model__" and len(n.args) == 5
+             and _src(n.args[4]) == "'adversary'"]
+    if len(calls) != 1:
+        _bad("_backend_engine.py: the adversary model is not built by one __init_model__(.., 'adversary') call")
+    w = calls[0].args[2]
+    src = _src(w)
+
+    def tr(n):
+        s_ = _src(n)
+        if s_ == "n_Y_features":
+            return "n_Y_features"
+        if isinstance(n, ast.Constant) and isinstance(n.value, int) and not isinstance(n.value, bool) and n.value >= 0:
+            return str(n.value)
+        if isinstance(n, ast.BinOp) and isinstance(n.op, (ast.Mult, ast.Add)):
+            return f"({tr(n.left)} {'*' if isinstance(n.op, ast.Mult) else '+'} {tr(n.right)})"
+        if isinstance(n, ast.IfExp) and _src(n.test) == "base.pass_y_":
+            return f"(if pass_y then {tr(n.body)} else {tr(n.orelse)})"
+        _bad(f"_backend_engine.py: adversary input width `{src}`")
+    defs = [n for n in ast.walk(tree) if isinstance(n, ast.Assign) and _src(n.targets[0]) == "n_Y_features"]
+    if len(defs) != 1 or _src(defs[0].value) != "base._y_transform.n_features_out_":
+        _bad("_backend_engine.py: n_Y_features is not the width of the encoded target")
+    return tr(w), src
 
 
 @translate.lifter
